@@ -188,6 +188,14 @@ def r3_delimiter_escaping(ctx):
                 t, _ = _dict_literal(ctx, OBJ, tbl)
                 if '"' in t or ("ord", '"') in t:
                     helper_ok = True
+        if "repr(o)" in src and helper_ok and fn.name == "_lrepr_bytes":
+            # FT-repr: repr(bytes) escapes the *single* quote as \' when the value holds both quote kinds
+            rb = _reader_str_branches(ctx, "_read_byte_str")
+            if "'" not in btable_r and "'" not in rb:
+                ctx.ob("C03.R3", inst, OBJ, fn.lineno, False,
+                       "the payload is Python's repr(bytes): for a value holding both quote kinds it writes \\' , an escape the byte-string reader does not know (it keeps the backslash), so the value read back gains a byte",
+                       witness="(read-string (pr-str (python/bytes [39 34]))) is a 3-byte string")
+                continue
         if "repr(o)" in src and not helper_ok:
             ctx.ob("C03.R3", inst, OBJ, fn.lineno, False, "the payload is Python's repr(), which picks its own quote character and leaves a double quote bare",
                    witness="(pr-str (python/bytes [97 34 98])) => #b \"a\"b\"")
